@@ -20,6 +20,18 @@ REG = {
  'C06': ('model_checking', 'TLA+ Level-2 model checked by TLC + trace validation against Contract.tla (cut/Wait/IsClosed clauses)',
          'CutsDelivery on KernelImpl.tla; real traces with 0-3 concurrent Unsubscribe callers, inside-callback unsubscription, Wait and IsClosed probes validated by TLC.',
          'small scope; log order = real-time order', '6/C06'),
+ 'C04': ('model_checking', 'TLA+ reference semantics (Ops.tla/Pipeline.tla) enumerated exhaustively by TLC; every generated case replayed on the real operators',
+         'Ops.tla defines every catalogue operator as a Mealy machine; TLC enumerates every behaviour of Pipeline.tla inside the bounds (all instances incl. flavours, aliases and boundary parameters; operator pairs) and prints the expected observation after each step; the Go replayer drives the real operators (controllable and synchronous sources) and compares values, order and terminal after every step.',
+         'bounds: scripts <= 3-4 notifications over {-1,0,2}, chains <= 2; reference semantics pinned from documentation / pinned commit', '6/C04'),
+ 'C08': ('model_checking', 'TLA+ reference semantics enumerated by TLC; per-step replay on the real operators with goroutine identity of every callback',
+         'Same generated cases as C04; the C08 verdict is the per-step part: after each individual source Next returns the observer must already hold exactly the expected outputs, delivered on the caller goroutine, and nothing may arrive later.',
+         'hand-off operators (ObserveOn/SubscribeOn/ToChannel) are checked by the Detach part once built; bounds as C04', '6/C08'),
+ 'C09': ('model_checking', 'TLA+ reference semantics with context marker sets enumerated by TLC; replay with marker probes',
+         'Every OpStep of Ops.tla states the context (set of markers) of each output; the replayer attaches markers at subscription and per item and compares the marker set of every callback; nil contexts and lost markers are violations, extra markers are notes.',
+         'bounds as C04; markers attached at subscription, per item, by context operators and by context-aware callbacks', '6/C09'),
+ 'C14': ('model_checking', 'TLA+ reference semantics enumerated by TLC; replay with controllable never-ending sources and teardown counters',
+         'Pipeline.tla requires the source to be released in the very step in which an operator terminates the stream; TLC enumerates all cut positions for all instances and pairs; the replayer checks the teardown counter of the controllable source right after that step, without emitting anything else.',
+         'bounds as C04; operators that block inside Subscribe are covered by the Resub part once built', '6/C14'),
 }
 NA_REASON = 'check not built yet (framework under construction); planned, see DESIGN.md section 6'
 
